@@ -10,6 +10,10 @@
 // that a derivation that starts reading one of them is judged against the same
 // clauses about the base policy. A reference model written from the property text says what a successful
 // derivation may look like; refusals are never judged, only counted.
+//
+// Further families judged by the same rules: kept.go (what one caller keeps over a
+// history of calls), conc.go (concurrent derivations from shared bases), bounds.go
+// (value edges and equivalent encodings); world.go holds what they share.
 package c17
 
 import (
@@ -47,6 +51,10 @@ func init() {
 			"Each case calls SevPolicy for overwrite x allow-unspecified x VMSA count in {0, listed, listed-and-equal-to-base, unlisted} and TdxPolicy for overwrite x RAM size in {0, listed, unlisted, negative, >32 bit}. " +
 			"Oracle (successes only; refusals are counted, not judged): base equals its snapshot (proto.Equal, deterministic bytes, sentinels behind the key lists) after every call; result is a different object and flipping every byte / nested scalar of it leaves base unchanged; " +
 			"without overwrite a set guest policy / measurement / any_mr_td survives and minimum_guest_svn is unchanged and not above the endorsed SVN; written measurement, guest policy, MRTD list and appended keys are the endorsement's (guest policy with overwrite may stay the base's non-zero value, as documented); malformed CA bundles and unlisted / unspecified VMSA counts are not accepted; every other field (and unknown fields) equals base or the documented default. " +
+			"Further families, numbered after these cases and judged by the same rules (sevJudge / tdxJudge) against a snapshot of the base the caller passed: " +
+			"(kept.go) histories of 12..24 calls by one caller who keeps ONE options value per entry point of which only changed fields are rewritten, ONE endorsement value whose serialized_uefi_golden buffer is refilled in place (signature left alone), the bases of 2-3 endorsements (unrelated and siblings differing in one respect), and every returned policy: compared again after every later call and after the buffer was refilled (earlier-result-changed), a quarter edited by the caller (results-share-memory, result-aliases-base), unedited ones fed back as base; refused calls and calls on undecodable bytes in between; the Base field of the options value must still be the caller's (options-base-replaced). " +
+			"(conc.go) 4|8|16 goroutines released on a barrier, 24..63 pre-drawn calls each on the shared bases and (shared or own) endorsement values of one world; judged after the join exactly as a call made alone, bases compared with their snapshots, every other result edited. " +
+			"(bounds.go) the main case on edges and equivalent encodings: zero-length / one-byte listed measurements requested; guest policies one bit (of 64) apart, endorsed policy 0 / all-ones; SVN and minimum at 0, 1, 2^31-1, 2^31, 2^32-1; VMSA counts 0, 255..257, 65536, 2^31, 2^32-1 as keys and requests; bundles with blank lines, CRLF, PEM headers, empty / one-byte body, CERTIFICATE REQUEST blocks, no final newline; TDX rows and requests for RAM sizes around 0, 2^31, 2^32, up to 24 rows with repeated MRTDs; the serialized golden re-encoded (field order, sev_snp / tdx split into two merging occurrences, decoy scalar / map entry ahead of the real one, non-minimal varints; accepted only if the protobuf library decodes it to an equal message). " +
 			"non-trivial = distinct (overwrite, relation of each guarded base field to the endorsement, VMSA/RAM request kind, bundle shape, relation of svsm_measurement to the base and the measurement table, outcome) cells",
 		Assumptions: []string{
 			"with overwrite and a non-zero base guest policy the result may carry either the base's or the endorsement's guest policy (sevpolicy.go documents the former)",
@@ -55,7 +63,11 @@ func init() {
 			"CA bundle shapes whose treatment the property does not fix (text before the first block, white space after the last) are only judged when accepted: the appended keys must then be the bundle's certificates",
 			"a result measurement equal to the endorsement's non-empty svsm_measurement counts as 'of the endorsement' (counted, not judged by measurement-not-endorsed / unlisted-vmsas-accepted); the base's own set measurement must still survive without overwrite whatever the endorsement carries",
 			"the MRTD allow-list is compared as a multiset (order is not part of the property)",
-			"SevPolicy/TdxPolicy do not check signatures, so endorsements are unsigned payloads"},
+			"SevPolicy/TdxPolicy do not check signatures, so endorsements are unsigned payloads",
+			"'returns a new policy' is read to include: a policy returned earlier still reads as returned after later derivations, after the caller reused its endorsement buffer and after the caller edited another returned policy",
+			"'leaves the caller's base policy unchanged' is read to include the Base field of the options value the caller passed (kept.go const judgeOptionsBase); other option fields are only noted",
+			"the property holds for every call whatever ran before or runs at the same time in the process (a verifier service derives policies from one shared base concurrently); a call that refuses where the same call alone would derive is counted, not judged",
+			"bundle encodings whose treatment the property does not fix (blank lines between blocks, CRLF, PEM headers, empty body, no final newline) are only judged when accepted: the appended keys must then be the blocks' bodies; CERTIFICATE REQUEST blocks must be refused (strict type)"},
 		ShardsQuick: 8, ShardsThor: 16, TimeoutS: 600, TimeoutThor: 3000, Run: run,
 	})
 }
@@ -696,6 +708,9 @@ type tally struct {
 	sevKeysAppended, sevKeysBoth                                int
 	tdxOK, tdxOKFilled, tdxGuardRefused, tdxOverwritten         int
 	surprisingRefusals                                          int
+	// edges (bounds.go)
+	sevShortDerived, sevShortKept, sevShortRefused int // endorsed measurement of 0 or 1 bytes requested
+	sevBigCountDerived, tdxEdgeDerived             int
 }
 
 func run(c *core.Ctx) {
@@ -719,8 +734,8 @@ func run(c *core.Ctx) {
 		endSnap := cp(end.SerializedUefiGolden)
 		gname := fmt.Sprintf("case#%d snp=%v tdx=%v bundle=%s svsm=%s decoys[%s] sevbase[policy=%s meas=%s minsvn=%s] tdxbase[%s]", i, e.hasSnp, e.hasTdx, e.bundle.kind, e.svsmRel, e.decoys, sb.polRel, sb.measKind, sb.svnRel, tb.kind)
 		c.Begin(i, gname, "SevPolicy+TdxPolicy", end.SerializedUefiGolden)
-		sevCase(c, ctx, i, r, gname, end, e, sb, &t)
-		tdxCase(c, ctx, i, r, gname, end, e, tb, &t)
+		sevCase(c, ctx, i, r, gname, end, e, sb, &t, vmsaKeys)
+		tdxCase(c, ctx, i, r, gname, end, e, tb, &t, nil)
 		if !bytes.Equal(endSnap, end.SerializedUefiGolden) {
 			c.Note("the endorsement passed to the derivation was modified (not part of C17; seen in case %d)", i)
 		}
@@ -759,9 +774,61 @@ func run(c *core.Ctx) {
 	c.Floor("sev-keys-appended-and-malformed-bundle-refused", t.sevKeysBoth > 0 && t.sevRefBundle > 0)
 	c.Floor("tdx-derived-from-filled-base", t.tdxOKFilled > 0)
 	c.Floor("tdx-guard-refused-and-overwrite-replaced", t.tdxGuardRefused > 0 && t.tdxOverwritten > 0)
+
+	// further families, numbered after the main family's cases; judged by the same sevJudge / tdxJudge
+	var tx tally
+	kt, ct, bt := &keptTally{}, &concTally{}, &boundsTally{}
+	first := n
+	nk := c.N(1000, 10000)
+	keptFamily(c, first, nk, &tx, kt)
+	first += nk
+	nc := c.N(96, 800)
+	concFamily(c, first, nc, &tx, ct)
+	first += nc
+	nb := c.N(3000, 40000)
+	boundsFamily(c, first, nb, &tx, bt)
+	kt.report(c)
+	ct.report(c)
+	bt.report(c, &tx)
+	c.Count("families/sev-derived", tx.sevOK)
+	c.Count("families/tdx-derived", tx.tdxOK)
+	c.Count("families/sev-kept-set-guarded-field", tx.sevKeepPolicy+tx.sevKeepMeas+tx.sevKeepSvn)
+	c.Count("families/refused-guarded-conflict", tx.sevRefPolicy+tx.sevRefMeas+tx.sevRefSvn+tx.tdxGuardRefused)
+	c.Count("families/refusals-the-model-did-not-expect(not judged)", tx.surprisingRefusals)
 }
 
-func sevCase(c *core.Ctx, ctx context.Context, i int, r *rand.Rand, gname string, end *epb.VMLaunchEndorsement, e *endorsed, sb *sevBase, t *tally) {
+// sevObs is one observed SevPolicy call: what was passed (base as passed and its snapshot taken
+// before the call), what the oracle knows about the endorsement, and what came back.
+type sevObs struct {
+	i                        int
+	call                     string
+	e                        *endorsed
+	end                      *epb.VMLaunchEndorsement
+	polRel, measKind, svnRel string
+	base, snap               *cpb.Policy
+	req                      uint32
+	ow, allow                bool
+	res                      *cpb.Policy
+	err                      error
+	sample                   bool
+	more                     map[string]any // further witness entries (history of a session, ...)
+}
+
+func (o *sevObs) witness() any {
+	w := map[string]any{"base": js(o.snap), "base_is_nil": o.snap == nil, "endorsement_serialized_uefi_golden": o.end.GetSerializedUefiGolden(),
+		"launch_vmsas": o.req, "overwrite": o.ow, "allow_unspecified_vmsas": o.allow, "result": js(o.res), "error": fmt.Sprint(o.err),
+		"endorsed_measurement_for_launch_vmsas": fmt.Sprintf("%x", o.e.meas[o.req]), "endorsed_svsm_measurement": fmt.Sprintf("%x", o.e.svsm)}
+	for k, v := range o.more {
+		w[k] = v
+	}
+	return w
+}
+
+func (o *sevObs) viol(c *core.Ctx, rule, format string, a ...any) {
+	c.Violate(core.Violation{Kind: "oracle", Entry: entSev, Site: rule, Gen: o.call, Case: o.i, Detail: fmt.Sprintf(format, a...), Witness: o.witness()})
+}
+
+func sevCase(c *core.Ctx, ctx context.Context, i int, r *rand.Rand, gname string, end *epb.VMLaunchEndorsement, e *endorsed, sb *sevBase, t *tally, keys []uint32) {
 	base := sb.p
 	var snap *cpb.Policy
 	var snapBytes []byte
@@ -769,14 +836,9 @@ func sevCase(c *core.Ctx, ctx context.Context, i int, r *rand.Rand, gname string
 		snap = proto.Clone(base).(*cpb.Policy)
 		snapBytes = detBytes(base)
 	}
-	// the reference the result is compared with: the snapshot, or the documented default
-	ref := snap
-	if ref == nil {
-		ref = &cpb.Policy{Policy: gen.ProdPolicy(), MinimumVersion: "0.0"}
-	}
 	// VMSA requests
 	var present, absent []uint32
-	for _, k := range vmsaKeys {
+	for _, k := range keys {
 		if _, ok := e.meas[k]; ok {
 			present = append(present, k)
 		} else {
@@ -808,198 +870,29 @@ func sevCase(c *core.Ctx, ctx context.Context, i int, r *rand.Rand, gname string
 			if m.Panicked {
 				continue
 			}
-			witness := func() any {
-				return map[string]any{"base": js(snap), "base_is_nil": snap == nil, "endorsement_serialized_uefi_golden": end.SerializedUefiGolden,
-					"launch_vmsas": req, "overwrite": ow, "allow_unspecified_vmsas": allow, "result": js(res), "error": fmt.Sprint(err),
-					"endorsed_measurement_for_launch_vmsas": fmt.Sprintf("%x", e.meas[req]), "endorsed_svsm_measurement": fmt.Sprintf("%x", e.svsm)}
-			}
-			viol := func(rule, format string, a ...any) {
-				c.Violate(core.Violation{Kind: "oracle", Entry: entSev, Site: rule, Gen: call, Case: i, Detail: fmt.Sprintf(format, a...), Witness: witness()})
-			}
+			o := &sevObs{i: i, call: call, e: e, end: end, polRel: sb.polRel, measKind: sb.measKind, svnRel: sb.svnRel, base: base, snap: snap,
+				req: req, ow: ow, allow: allow, res: res, err: err, sample: i%397 == 0 && combo == 0}
 			// --- the caller's policy is never touched, whatever the outcome
 			if base != nil && !baseBroken {
 				if !proto.Equal(base, snap) || !bytes.Equal(detBytes(base), snapBytes) {
-					viol("base-mutated", "the caller's base policy changed in %v during the call (err=%v)", diffFields(base.ProtoReflect(), snap.ProtoReflect()), err)
+					o.viol(c, "base-mutated", "the caller's base policy changed in %v during the call (err=%v)", diffFields(base.ProtoReflect(), snap.ProtoReflect()), err)
 					baseBroken = true
 				} else if !sb.idSp.intact() || !sb.authSp.intact() {
-					viol("base-backing-array-written", "the derivation wrote behind the end of the caller's trusted key list (append through a shallow copy)")
+					o.viol(c, "base-backing-array-written", "the derivation wrote behind the end of the caller's trusted key list (append through a shallow copy)")
 					baseBroken = true
 				}
 			}
-			// what the property lets a success look like
-			vmsaKind := "vmsas=0"
-			if req != 0 {
-				vmsaKind = "vmsas=unlisted"
-				if _, ok := e.meas[req]; ok {
-					vmsaKind = "vmsas=listed"
-				}
-			}
-			expect := "ok"
-			switch {
-			case !e.hasSnp:
-				expect = "no-sev-snp"
-			case !ow && ref.Policy != 0 && ref.Policy != e.policy:
-				expect = "guest-policy-conflict"
-			case !ow && req != 0 && len(ref.Measurement) != 0 && !bytes.Equal(ref.Measurement, e.meas[req]):
-				expect = "measurement-conflict"
-			case !ow && ref.MinimumGuestSvn != 0 && e.svn < ref.MinimumGuestSvn:
-				expect = "min-guest-svn-conflict"
-			case req == 0 && !allow:
-				expect = "vmsas-unspecified"
-			case vmsaKind == "vmsas=unlisted":
-				expect = "vmsas-unlisted"
-			case e.bundle.mustRefuse:
-				expect = "malformed-bundle"
-			case e.bundle.unjudged:
-				expect = "bundle-unjudged"
-			}
-			outcome := "refused"
-			if err == nil {
-				outcome = "derived"
-			}
-			c.Cell("sev-guarded|ow=%v|policy=%s|meas=%s|minsvn=%s|%s", ow, sb.polRel, sb.measKind, sb.svnRel, outcome)
-			c.Cell("sev-request|ow=%v|allow=%v|%s|expect=%s|%s", ow, allow, vmsaKind, expect, outcome)
-			c.Cell("sev-bundle|%s|%s", e.bundle.kind, outcome)
-			c.Cell("sev-svsm|ow=%v|svsm=%s|meas=%s|%s|%s", ow, e.svsmRel, sb.measKind, vmsaKind, outcome)
-			if err != nil {
-				switch expect {
-				case "ok":
-					t.surprisingRefusals++
-					c.Note("SevPolicy refused a derivation the model would allow (not judged), first seen form: %s", stripDigits(err.Error()))
-				case "guest-policy-conflict":
-					t.sevRefPolicy++
-				case "measurement-conflict":
-					t.sevRefMeas++
-				case "min-guest-svn-conflict":
-					t.sevRefSvn++
-				case "malformed-bundle":
-					t.sevRefBundle++
-				case "vmsas-unspecified", "vmsas-unlisted":
-					t.sevRefNo++
-				}
+			if !sevJudge(c, t, o) {
 				continue
-			}
-			// --- a derivation succeeded
-			if !e.hasSnp {
-				c.Count("sev/derived-without-sev-snp-part(not judged)", 1)
-				continue
-			}
-			if res == nil {
-				viol("nil-result", "SevPolicy returned neither a policy nor an error")
-				continue
-			}
-			t.sevOK++
-			if len(e.svsm) > 0 {
-				t.sevOKWithSvsm++
-			}
-			if base == nil {
-				t.sevOKNil++
-			} else {
-				t.sevOKFilled++
-			}
-			if base != nil && res == base {
-				viol("result-is-base", "SevPolicy returned the caller's base policy object instead of a new policy")
-			}
-			// guarded fields
-			if !ow && base != nil {
-				if ref.Policy != 0 {
-					if res.Policy != ref.Policy {
-						viol("guest-policy-overwritten", "base guest policy %#x replaced by %#x without overwrite", ref.Policy, res.Policy)
-					} else {
-						t.sevKeepPolicy++
-					}
-				}
-				if len(ref.Measurement) != 0 {
-					if !bytes.Equal(res.Measurement, ref.Measurement) {
-						viol("measurement-overwritten", "base measurement %x replaced by %x without overwrite", ref.Measurement, res.Measurement)
-					} else {
-						t.sevKeepMeas++
-						if len(e.svsm) > 0 && !bytes.Equal(e.svsm, ref.Measurement) {
-							t.sevKeepMeasBesideSvsm++
-						}
-					}
-				}
-				if ref.MinimumGuestSvn != 0 {
-					if res.MinimumGuestSvn != ref.MinimumGuestSvn {
-						viol("min-guest-svn-changed", "base minimum_guest_svn %d became %d without overwrite", ref.MinimumGuestSvn, res.MinimumGuestSvn)
-					} else if e.svn < ref.MinimumGuestSvn {
-						viol("min-guest-svn-conflict-accepted", "base minimum_guest_svn %d rejects the endorsed SVN %d, yet the derivation succeeded without overwrite", ref.MinimumGuestSvn, e.svn)
-					} else {
-						t.sevKeepSvn++
-					}
-				}
-			} else if expect == "ok" && (sb.polRel == "differs" || sb.measKind == "neighbour" || sb.measKind == "foreign" || sb.svnRel == "gt") {
-				t.sevOKOverwriteDiffers++
-			}
-			// values written are the endorsement's
-			switch {
-			case !ow || ref.Policy == 0:
-				if res.Policy != e.policy {
-					viol("guest-policy-not-endorsed", "result guest policy %#x, endorsement says %#x (base had %#x, overwrite=%v)", res.Policy, e.policy, ref.Policy, ow)
-				}
-			default: // documented: with overwrite a non-zero base guest policy wins
-				if res.Policy != e.policy && res.Policy != ref.Policy {
-					viol("guest-policy-not-endorsed", "result guest policy %#x is neither the endorsement's %#x nor the base's %#x", res.Policy, e.policy, ref.Policy)
-				}
-			}
-			if req != 0 {
-				want, ok := e.meas[req]
-				switch {
-				case ok && bytes.Equal(res.Measurement, want):
-				case e.isSvsm(res.Measurement): // the endorsement's other measurement: "of the endorsement", not judged here
-					t.sevSvsmInResult++
-				case !ok:
-					viol("unlisted-vmsas-accepted", "the endorsement lists no measurement for %d VMSAs, yet a policy was derived (measurement %x)", req, res.Measurement)
-				default:
-					viol("measurement-not-endorsed", "result measurement %x, endorsement lists %x for %d VMSAs (svsm_measurement %x)", res.Measurement, want, req, e.svsm)
-				}
-			} else {
-				if !allow {
-					viol("unspecified-vmsas-accepted", "launch_vmsas=0 without allow-unspecified produced a policy")
-				}
-				if len(res.Measurement) != 0 && !bytes.Equal(res.Measurement, ref.Measurement) && e.isSvsm(res.Measurement) {
-					t.sevSvsmInResult++
-				} else if len(res.Measurement) != 0 && !bytes.Equal(res.Measurement, ref.Measurement) {
-					viol("measurement-not-endorsed", "no VMSA count given, yet the result carries measurement %x (base had %x)", res.Measurement, ref.Measurement)
-				}
-			}
-			// trusted keys = base lists ++ bundle certificates
-			if e.bundle.mustRefuse {
-				viol("malformed-bundle-accepted", "CA bundle of shape %q was accepted; identity keys %x author keys %x", e.bundle.kind, res.TrustedIdKeys, res.TrustedAuthorKeys)
-			} else {
-				wantID, wantAuth := cat(ref.TrustedIdKeys, e.bundle.ids), cat(ref.TrustedAuthorKeys, e.bundle.auths)
-				if !bytesListEqual(res.TrustedIdKeys, wantID) {
-					viol("trusted-id-keys-wrong", "trusted_id_keys %x, want base ++ bundle identity certificate = %x (bundle %s)", res.TrustedIdKeys, wantID, e.bundle.kind)
-				}
-				if !bytesListEqual(res.TrustedAuthorKeys, wantAuth) {
-					viol("trusted-author-keys-wrong", "trusted_author_keys %x, want base ++ bundle author certificate = %x (bundle %s)", res.TrustedAuthorKeys, wantAuth, e.bundle.kind)
-				}
-				if len(e.bundle.ids) > 0 {
-					t.sevKeysAppended++
-				}
-				if len(e.bundle.auths) > 0 {
-					t.sevKeysBoth++
-				}
-			}
-			// every other field is carried over
-			for _, f := range diffFields(res.ProtoReflect(), ref.ProtoReflect()) {
-				switch f {
-				case "policy", "measurement", "trusted_id_keys", "trusted_author_keys", "minimum_guest_svn":
-				default:
-					viol("unrelated-field-changed", "field %s of the result differs from the base (base %s)", f, js(ref))
-				}
-			}
-			if i%397 == 0 && combo == 0 {
-				c.Sample(map[string]any{"case": i, "entry": entSev, "base": js(snap), "launch_vmsas": req, "overwrite": ow, "allow_unspecified": allow, "endorsed_policy": e.policy, "endorsed_svn": e.svn, "bundle": e.bundle.kind, "result": js(res)})
 			}
 			// the result shares no memory with the base (last: this destroys res)
 			if base != nil && res != base && !baseBroken {
 				scramble(res.ProtoReflect(), 0)
 				if !proto.Equal(base, snap) || !bytes.Equal(detBytes(base), snapBytes) {
-					viol("result-aliases-base", "changing the returned policy changed the caller's base policy in %v", diffFields(base.ProtoReflect(), snap.ProtoReflect()))
+					o.viol(c, "result-aliases-base", "changing the returned policy changed the caller's base policy in %v", diffFields(base.ProtoReflect(), snap.ProtoReflect()))
 					baseBroken = true
 				} else if !sb.idSp.intact() || !sb.authSp.intact() {
-					viol("result-aliases-base", "appending to a key list of the returned policy wrote into the backing array of the caller's list")
+					o.viol(c, "result-aliases-base", "appending to a key list of the returned policy wrote into the backing array of the caller's list")
 					baseBroken = true
 				}
 			}
@@ -1007,7 +900,245 @@ func sevCase(c *core.Ctx, ctx context.Context, i int, r *rand.Rand, gname string
 	}
 }
 
-func tdxCase(c *core.Ctx, ctx context.Context, i int, r *rand.Rand, gname string, end *epb.VMLaunchEndorsement, e *endorsed, tb *tdxBase, t *tally) {
+// sevJudge applies the clauses of the property to one observed SevPolicy call. It reports whether
+// a policy was derived and judged (the caller may then probe it for shared memory).
+func sevJudge(c *core.Ctx, t *tally, o *sevObs) bool {
+	e, base, snap, req, ow, allow, res, err := o.e, o.base, o.snap, o.req, o.ow, o.allow, o.res, o.err
+	viol := func(rule, format string, a ...any) { o.viol(c, rule, format, a...) }
+	sb := o // relation labels
+	// the reference the result is compared with: the snapshot, or the documented default
+	ref := snap
+	if ref == nil {
+		ref = &cpb.Policy{Policy: gen.ProdPolicy(), MinimumVersion: "0.0"}
+	}
+	// what the property lets a success look like
+	vmsaKind := "vmsas=0"
+	if req != 0 {
+		vmsaKind = "vmsas=unlisted"
+		if _, ok := e.meas[req]; ok {
+			vmsaKind = "vmsas=listed"
+		}
+	}
+	expect := "ok"
+	switch {
+	case !e.hasSnp:
+		expect = "no-sev-snp"
+	case !ow && ref.Policy != 0 && ref.Policy != e.policy:
+		expect = "guest-policy-conflict"
+	case !ow && req != 0 && len(ref.Measurement) != 0 && !bytes.Equal(ref.Measurement, e.meas[req]):
+		expect = "measurement-conflict"
+	case !ow && ref.MinimumGuestSvn != 0 && e.svn < ref.MinimumGuestSvn:
+		expect = "min-guest-svn-conflict"
+	case req == 0 && !allow:
+		expect = "vmsas-unspecified"
+	case vmsaKind == "vmsas=unlisted":
+		expect = "vmsas-unlisted"
+	case e.bundle.mustRefuse:
+		expect = "malformed-bundle"
+	case e.bundle.unjudged:
+		expect = "bundle-unjudged"
+	}
+	outcome := "refused"
+	if err == nil {
+		outcome = "derived"
+	}
+	c.Cell("sev-guarded|ow=%v|policy=%s|meas=%s|minsvn=%s|%s", ow, sb.polRel, sb.measKind, sb.svnRel, outcome)
+	c.Cell("sev-request|ow=%v|allow=%v|%s|expect=%s|%s", ow, allow, vmsaKind, expect, outcome)
+	c.Cell("sev-bundle|%s|%s", e.bundle.kind, outcome)
+	c.Cell("sev-svsm|ow=%v|svsm=%s|meas=%s|%s|%s", ow, e.svsmRel, sb.measKind, vmsaKind, outcome)
+	if err != nil {
+		switch expect {
+		case "ok":
+			t.surprisingRefusals++
+			c.Note("SevPolicy refused a derivation the model would allow (not judged), first seen form: %s", stripDigits(err.Error()))
+		case "guest-policy-conflict":
+			t.sevRefPolicy++
+		case "measurement-conflict":
+			t.sevRefMeas++
+			if m, ok := e.meas[req]; ok && len(m) <= 1 {
+				t.sevShortRefused++
+				c.Cell("sev-short-measurement|len=%d|base-meas=%s|ow=%v|refused", len(m), sb.measKind, ow)
+			}
+		case "min-guest-svn-conflict":
+			t.sevRefSvn++
+		case "malformed-bundle":
+			t.sevRefBundle++
+		case "vmsas-unspecified", "vmsas-unlisted":
+			t.sevRefNo++
+		}
+		return false
+	}
+	// --- a derivation succeeded
+	if !e.hasSnp {
+		c.Count("sev/derived-without-sev-snp-part(not judged)", 1)
+		return false
+	}
+	if res == nil {
+		viol("nil-result", "SevPolicy returned neither a policy nor an error")
+		return false
+	}
+	t.sevOK++
+	if len(e.svsm) > 0 {
+		t.sevOKWithSvsm++
+	}
+	if base == nil {
+		t.sevOKNil++
+	} else {
+		t.sevOKFilled++
+	}
+	if base != nil && res == base {
+		viol("result-is-base", "SevPolicy returned the caller's base policy object instead of a new policy")
+	}
+	// guarded fields
+	if !ow && base != nil {
+		if ref.Policy != 0 {
+			if res.Policy != ref.Policy {
+				viol("guest-policy-overwritten", "base guest policy %#x replaced by %#x without overwrite", ref.Policy, res.Policy)
+			} else {
+				t.sevKeepPolicy++
+			}
+		}
+		if len(ref.Measurement) != 0 {
+			if !bytes.Equal(res.Measurement, ref.Measurement) {
+				viol("measurement-overwritten", "base measurement %x replaced by %x without overwrite", ref.Measurement, res.Measurement)
+			} else {
+				t.sevKeepMeas++
+				if len(e.svsm) > 0 && !bytes.Equal(e.svsm, ref.Measurement) {
+					t.sevKeepMeasBesideSvsm++
+				}
+			}
+		}
+		if ref.MinimumGuestSvn != 0 {
+			if res.MinimumGuestSvn != ref.MinimumGuestSvn {
+				viol("min-guest-svn-changed", "base minimum_guest_svn %d became %d without overwrite", ref.MinimumGuestSvn, res.MinimumGuestSvn)
+			} else if e.svn < ref.MinimumGuestSvn {
+				viol("min-guest-svn-conflict-accepted", "base minimum_guest_svn %d rejects the endorsed SVN %d, yet the derivation succeeded without overwrite", ref.MinimumGuestSvn, e.svn)
+			} else {
+				t.sevKeepSvn++
+			}
+		}
+	} else if expect == "ok" && (sb.polRel == "differs" || sb.measKind == "neighbour" || sb.measKind == "foreign" || sb.svnRel == "gt") {
+		t.sevOKOverwriteDiffers++
+	}
+	// values written are the endorsement's
+	switch {
+	case !ow || ref.Policy == 0:
+		if res.Policy != e.policy {
+			viol("guest-policy-not-endorsed", "result guest policy %#x, endorsement says %#x (base had %#x, overwrite=%v)", res.Policy, e.policy, ref.Policy, ow)
+		}
+	default: // documented: with overwrite a non-zero base guest policy wins
+		if res.Policy != e.policy && res.Policy != ref.Policy {
+			viol("guest-policy-not-endorsed", "result guest policy %#x is neither the endorsement's %#x nor the base's %#x", res.Policy, e.policy, ref.Policy)
+		}
+	}
+	if req != 0 {
+		want, ok := e.meas[req]
+		if ok && len(want) <= 1 {
+			t.sevShortDerived++
+			if !ow && base != nil && len(ref.Measurement) != 0 {
+				t.sevShortKept++
+			}
+			c.Cell("sev-short-measurement|len=%d|base-meas=%s|ow=%v|derived", len(want), sb.measKind, ow)
+		}
+		if ok && req > 255 {
+			t.sevBigCountDerived++
+			c.Cell("sev-vmsa-count|%s|derived", countClass(req))
+		}
+		switch {
+		case ok && bytes.Equal(res.Measurement, want):
+		case e.isSvsm(res.Measurement): // the endorsement's other measurement: "of the endorsement", not judged here
+			t.sevSvsmInResult++
+		case !ok:
+			viol("unlisted-vmsas-accepted", "the endorsement lists no measurement for %d VMSAs, yet a policy was derived (measurement %x)", req, res.Measurement)
+		default:
+			viol("measurement-not-endorsed", "result measurement %x, endorsement lists %x for %d VMSAs (svsm_measurement %x)", res.Measurement, want, req, e.svsm)
+		}
+	} else {
+		if !allow {
+			viol("unspecified-vmsas-accepted", "launch_vmsas=0 without allow-unspecified produced a policy")
+		}
+		if len(res.Measurement) != 0 && !bytes.Equal(res.Measurement, ref.Measurement) && e.isSvsm(res.Measurement) {
+			t.sevSvsmInResult++
+		} else if len(res.Measurement) != 0 && !bytes.Equal(res.Measurement, ref.Measurement) {
+			viol("measurement-not-endorsed", "no VMSA count given, yet the result carries measurement %x (base had %x)", res.Measurement, ref.Measurement)
+		}
+	}
+	// trusted keys = base lists ++ bundle certificates
+	if e.bundle.mustRefuse {
+		viol("malformed-bundle-accepted", "CA bundle of shape %q was accepted; identity keys %x author keys %x", e.bundle.kind, res.TrustedIdKeys, res.TrustedAuthorKeys)
+	} else {
+		wantID, wantAuth := cat(ref.TrustedIdKeys, e.bundle.ids), cat(ref.TrustedAuthorKeys, e.bundle.auths)
+		if !bytesListEqual(res.TrustedIdKeys, wantID) {
+			viol("trusted-id-keys-wrong", "trusted_id_keys %x, want base ++ bundle identity certificate = %x (bundle %s)", res.TrustedIdKeys, wantID, e.bundle.kind)
+		}
+		if !bytesListEqual(res.TrustedAuthorKeys, wantAuth) {
+			viol("trusted-author-keys-wrong", "trusted_author_keys %x, want base ++ bundle author certificate = %x (bundle %s)", res.TrustedAuthorKeys, wantAuth, e.bundle.kind)
+		}
+		if len(e.bundle.ids) > 0 {
+			t.sevKeysAppended++
+		}
+		if len(e.bundle.auths) > 0 {
+			t.sevKeysBoth++
+		}
+	}
+	// every other field is carried over
+	for _, f := range diffFields(res.ProtoReflect(), ref.ProtoReflect()) {
+		switch f {
+		case "policy", "measurement", "trusted_id_keys", "trusted_author_keys", "minimum_guest_svn":
+		default:
+			viol("unrelated-field-changed", "field %s of the result differs from the base (base %s)", f, js(ref))
+		}
+	}
+	if o.sample {
+		c.Sample(map[string]any{"case": o.i, "entry": entSev, "base": js(snap), "launch_vmsas": req, "overwrite": ow, "allow_unspecified": allow, "endorsed_policy": e.policy, "endorsed_svn": e.svn, "bundle": e.bundle.kind, "result": js(res)})
+	}
+	return true
+}
+
+// tdxObs is one observed TdxPolicy call.
+type tdxObs struct {
+	i          int
+	call       string
+	e          *endorsed
+	end        *epb.VMLaunchEndorsement
+	kind       string // relation of the base's any_mr_td to the endorsement
+	base, snap *tcpb.Policy
+	ram        int
+	ow         bool
+	res        *tcpb.Policy
+	err        error
+	sample     bool
+	more       map[string]any
+}
+
+func (o *tdxObs) witness() any {
+	w := map[string]any{"base": js(o.snap), "base_is_nil": o.snap == nil, "endorsement_serialized_uefi_golden": o.end.GetSerializedUefiGolden(),
+		"ram_gib": o.ram, "overwrite": o.ow, "result": js(o.res), "error": fmt.Sprint(o.err)}
+	for k, v := range o.more {
+		w[k] = v
+	}
+	return w
+}
+
+func (o *tdxObs) viol(c *core.Ctx, rule, format string, a ...any) {
+	c.Violate(core.Violation{Kind: "oracle", Entry: entTdx, Site: rule, Gen: o.call, Case: o.i, Detail: fmt.Sprintf(format, a...), Witness: o.witness()})
+}
+
+func countClass(n uint32) string {
+	switch {
+	case n == 0:
+		return "0"
+	case n < 256:
+		return "<256"
+	case n <= 65536:
+		return "256..65536"
+	case n < 0xffffffff:
+		return ">=2^31"
+	}
+	return "2^32-1"
+}
+
+func tdxCase(c *core.Ctx, ctx context.Context, i int, r *rand.Rand, gname string, end *epb.VMLaunchEndorsement, e *endorsed, tb *tdxBase, t *tally, moreRams []int) {
 	base := tb.p
 	var snap *tcpb.Policy
 	var snapBytes []byte
@@ -1015,17 +1146,14 @@ func tdxCase(c *core.Ctx, ctx context.Context, i int, r *rand.Rand, gname string
 		snap = proto.Clone(base).(*tcpb.Policy)
 		snapBytes = detBytes(base)
 	}
-	ref := snap
-	if ref == nil {
-		ref = &tcpb.Policy{}
-	}
-	refAny := ref.GetTdQuoteBodyPolicy().GetAnyMrTd()
 	rams := []int{0, 48, -16, 1<<32 + 16}
 	if len(e.rows) > 0 {
 		rams = append(rams, int(e.rows[r.IntN(len(e.rows))].ram))
 	}
+	edgeFrom := len(rams)
+	rams = append(rams, moreRams...)
 	baseBroken := false
-	for _, ram := range rams {
+	for ri, ram := range rams {
 		for _, ow := range []bool{false, true} {
 			if baseBroken {
 				base = proto.Clone(snap).(*tcpb.Policy)
@@ -1040,114 +1168,131 @@ func tdxCase(c *core.Ctx, ctx context.Context, i int, r *rand.Rand, gname string
 			if m.Panicked {
 				continue
 			}
-			witness := func() any {
-				return map[string]any{"base": js(snap), "base_is_nil": snap == nil, "endorsement_serialized_uefi_golden": end.SerializedUefiGolden,
-					"ram_gib": ram, "overwrite": ow, "result": js(res), "error": fmt.Sprint(err)}
-			}
-			viol := func(rule, format string, a ...any) {
-				c.Violate(core.Violation{Kind: "oracle", Entry: entTdx, Site: rule, Gen: call, Case: i, Detail: fmt.Sprintf(format, a...), Witness: witness()})
-			}
+			o := &tdxObs{i: i, call: call, e: e, end: end, kind: tb.kind, base: base, snap: snap, ram: ram, ow: ow, res: res, err: err, sample: i%397 == 1 && !ow}
 			if base != nil && !baseBroken {
 				if !proto.Equal(base, snap) || !bytes.Equal(detBytes(base), snapBytes) {
-					viol("base-mutated", "the caller's base policy changed in %v during the call (err=%v)", diffFields(base.ProtoReflect(), snap.ProtoReflect()), err)
+					o.viol(c, "base-mutated", "the caller's base policy changed in %v during the call (err=%v)", diffFields(base.ProtoReflect(), snap.ProtoReflect()), err)
 					baseBroken = true
 				} else if !tb.anySp.intact() {
-					viol("base-backing-array-written", "the derivation wrote behind the end of the caller's any_mr_td list (append through a shallow copy)")
+					o.viol(c, "base-backing-array-written", "the derivation wrote behind the end of the caller's any_mr_td list (append through a shallow copy)")
 					baseBroken = true
 				}
 			}
-			listed := e.listed(ram)
-			ramKind := "ram=0"
-			if ram != 0 {
-				ramKind = "ram=unlisted"
-				if len(listed) > 0 {
-					ramKind = "ram=listed"
+			derived := tdxJudge(c, t, o)
+			if ri >= edgeFrom {
+				c.Cell("tdx-ram-edge|ram_gib=%d|listed=%v|ow=%v|derived=%v", ram, len(e.listed(ram)) > 0, ow, derived)
+				if derived {
+					t.tdxEdgeDerived++
 				}
 			}
-			expect := "ok"
-			switch {
-			case !e.hasTdx:
-				expect = "no-tdx"
-			case len(listed) == 0:
-				expect = "nothing-listed"
-			case !ow && len(refAny) > 0:
-				expect = "any-mr-td-guard"
-			}
-			outcome := "refused"
-			if err == nil {
-				outcome = "derived"
-			}
-			c.Cell("tdx|ow=%v|base=%s|%s|expect=%s|%s", ow, tb.kind, ramKind, expect, outcome)
-			if err != nil {
-				switch expect {
-				case "ok":
-					t.surprisingRefusals++
-					c.Note("TdxPolicy refused a derivation the model would allow (not judged), first seen form: %s", stripDigits(err.Error()))
-				case "any-mr-td-guard":
-					t.tdxGuardRefused++
-				}
+			if !derived {
 				continue
-			}
-			if !e.hasTdx {
-				c.Count("tdx/derived-without-tdx-part(not judged)", 1)
-				continue
-			}
-			if res == nil {
-				viol("nil-result", "TdxPolicy returned neither a policy nor an error")
-				continue
-			}
-			t.tdxOK++
-			if e.decoys != "" {
-				t.tdxOKDecorated++
-			}
-			if base != nil {
-				t.tdxOKFilled++
-			}
-			if base != nil && res == base {
-				viol("result-is-base", "TdxPolicy returned the caller's base policy object instead of a new policy")
-			}
-			got := res.GetTdQuoteBodyPolicy().GetAnyMrTd()
-			if len(refAny) > 0 {
-				if !ow {
-					viol("any-mr-td-overwritten", "base any_mr_td %x replaced by %x without overwrite", refAny, got)
-				} else {
-					t.tdxOverwritten++
-				}
-			}
-			if !multisetEqual(got, listed) {
-				viol("any-mr-td-not-endorsed", "result any_mr_td %x, the endorsement lists %x for ram_gib=%d (base had %x)", got, listed, ram, refAny)
-			}
-			// unrelated fields: header policy, unknown fields, every body field but any_mr_td
-			for _, f := range diffFields(res.ProtoReflect(), ref.ProtoReflect()) {
-				if f != "td_quote_body_policy" {
-					viol("unrelated-field-changed", "field %s of the result differs from the base (base %s)", f, js(ref))
-				}
-			}
-			rb, fb := res.GetTdQuoteBodyPolicy(), ref.GetTdQuoteBodyPolicy()
-			if fb == nil {
-				fb = &tcpb.TDQuoteBodyPolicy{}
-			}
-			if rb == nil {
-				rb = &tcpb.TDQuoteBodyPolicy{}
-			}
-			for _, f := range diffFields(rb.ProtoReflect(), fb.ProtoReflect()) {
-				if f != "any_mr_td" {
-					viol("unrelated-field-changed", "field td_quote_body_policy.%s of the result differs from the base (base %s)", f, js(ref))
-				}
-			}
-			if i%397 == 1 && !ow {
-				c.Sample(map[string]any{"case": i, "entry": entTdx, "base": js(snap), "ram_gib": ram, "overwrite": ow, "listed_mrtds": len(listed), "result": js(res)})
 			}
 			if base != nil && res != base && !baseBroken {
 				scramble(res.ProtoReflect(), 0)
 				if !proto.Equal(base, snap) || !bytes.Equal(detBytes(base), snapBytes) {
-					viol("result-aliases-base", "changing the returned policy changed the caller's base policy in %v", diffFields(base.ProtoReflect(), snap.ProtoReflect()))
+					o.viol(c, "result-aliases-base", "changing the returned policy changed the caller's base policy in %v", diffFields(base.ProtoReflect(), snap.ProtoReflect()))
 					baseBroken = true
 				} else if !tb.anySp.intact() {
-					viol("result-aliases-base", "appending to any_mr_td of the returned policy wrote into the backing array of the caller's list")
+					o.viol(c, "result-aliases-base", "appending to any_mr_td of the returned policy wrote into the backing array of the caller's list")
 					baseBroken = true
 				}
 			}
 		}
 	}
+}
+
+// tdxJudge applies the clauses of the property to one observed TdxPolicy call; true = a policy was
+// derived and judged.
+func tdxJudge(c *core.Ctx, t *tally, o *tdxObs) bool {
+	e, base, snap, ram, ow, res, err := o.e, o.base, o.snap, o.ram, o.ow, o.res, o.err
+	viol := func(rule, format string, a ...any) { o.viol(c, rule, format, a...) }
+	ref := snap
+	if ref == nil {
+		ref = &tcpb.Policy{}
+	}
+	refAny := ref.GetTdQuoteBodyPolicy().GetAnyMrTd()
+	listed := e.listed(ram)
+	ramKind := "ram=0"
+	if ram != 0 {
+		ramKind = "ram=unlisted"
+		if len(listed) > 0 {
+			ramKind = "ram=listed"
+		}
+	}
+	expect := "ok"
+	switch {
+	case !e.hasTdx:
+		expect = "no-tdx"
+	case len(listed) == 0:
+		expect = "nothing-listed"
+	case !ow && len(refAny) > 0:
+		expect = "any-mr-td-guard"
+	}
+	outcome := "refused"
+	if err == nil {
+		outcome = "derived"
+	}
+	c.Cell("tdx|ow=%v|base=%s|%s|expect=%s|%s", ow, o.kind, ramKind, expect, outcome)
+	if err != nil {
+		switch expect {
+		case "ok":
+			t.surprisingRefusals++
+			c.Note("TdxPolicy refused a derivation the model would allow (not judged), first seen form: %s", stripDigits(err.Error()))
+		case "any-mr-td-guard":
+			t.tdxGuardRefused++
+		}
+		return false
+	}
+	if !e.hasTdx {
+		c.Count("tdx/derived-without-tdx-part(not judged)", 1)
+		return false
+	}
+	if res == nil {
+		viol("nil-result", "TdxPolicy returned neither a policy nor an error")
+		return false
+	}
+	t.tdxOK++
+	if e.decoys != "" {
+		t.tdxOKDecorated++
+	}
+	if base != nil {
+		t.tdxOKFilled++
+	}
+	if base != nil && res == base {
+		viol("result-is-base", "TdxPolicy returned the caller's base policy object instead of a new policy")
+	}
+	got := res.GetTdQuoteBodyPolicy().GetAnyMrTd()
+	if len(refAny) > 0 {
+		if !ow {
+			viol("any-mr-td-overwritten", "base any_mr_td %x replaced by %x without overwrite", refAny, got)
+		} else {
+			t.tdxOverwritten++
+		}
+	}
+	if !multisetEqual(got, listed) {
+		viol("any-mr-td-not-endorsed", "result any_mr_td %x, the endorsement lists %x for ram_gib=%d (base had %x)", got, listed, ram, refAny)
+	}
+	// unrelated fields: header policy, unknown fields, every body field but any_mr_td
+	for _, f := range diffFields(res.ProtoReflect(), ref.ProtoReflect()) {
+		if f != "td_quote_body_policy" {
+			viol("unrelated-field-changed", "field %s of the result differs from the base (base %s)", f, js(ref))
+		}
+	}
+	rb, fb := res.GetTdQuoteBodyPolicy(), ref.GetTdQuoteBodyPolicy()
+	if fb == nil {
+		fb = &tcpb.TDQuoteBodyPolicy{}
+	}
+	if rb == nil {
+		rb = &tcpb.TDQuoteBodyPolicy{}
+	}
+	for _, f := range diffFields(rb.ProtoReflect(), fb.ProtoReflect()) {
+		if f != "any_mr_td" {
+			viol("unrelated-field-changed", "field td_quote_body_policy.%s of the result differs from the base (base %s)", f, js(ref))
+		}
+	}
+	if o.sample {
+		c.Sample(map[string]any{"case": o.i, "entry": entTdx, "base": js(snap), "ram_gib": ram, "overwrite": ow, "listed_mrtds": len(listed), "result": js(res)})
+	}
+	return true
 }
